@@ -357,7 +357,7 @@ fn front_of(prog: &WProgram, on: bool, include: bool) -> (Result<Vec<String>, St
     let defs: Vec<(&str, &str)> = if on { vec![("WIDE_ON", "1")] } else { Vec::new() };
     let res = guard(|| match front_end("main.rssl", &r.files, &defs) {
         Ok(m) => Ok(m.pipelines.iter().map(|p| show_ir_pipeline(&m, p)).collect::<Vec<_>>()),
-        Err(e) => Err(e.text().to_string()),
+        Err(e) => Err(if e.stage() == "parse" { format!("parse-error {}", e.text()) } else { e.text().to_string() }),
     });
     let res = match res {
         Ok(x) => x,
@@ -380,6 +380,7 @@ fn run_typer(on: bool, prog_s: &str, out: &mut Out, hist: &mut Hist) {
             fails.push(e.clone());
             format!("panic:{}", &e[6..])
         }
+        Err(e) if e.starts_with("parse-error ") => "err:parse".to_string(),
         Err(e) => classify_front_error(e, &r),
     };
     hist.add(&format!("typer={}", if obs.starts_with("ok:") { "ok" } else { obs.split('@').next().unwrap_or("") }));
@@ -415,24 +416,33 @@ struct WOpts {
     on: bool,
     include: bool,
     validate_layout: bool,
+    /// ask for buffer addresses whatever the target is (an argument error unless the target is Vulkan)
+    force_ba: bool,
 }
 
 impl WOpts {
     fn parse(s: &str) -> Option<WOpts> {
-        let mut o = WOpts { on: false, include: false, validate_layout: false };
+        let mut o = WOpts { on: false, include: false, validate_layout: false, force_ba: false };
         for (i, x) in s.split(',').enumerate() {
             match (i, x) {
                 (0, "on") => o.on = true,
                 (0, "off") => {}
                 (_, "inc") if i > 0 => o.include = true,
                 (_, "vl") if i > 0 => o.validate_layout = true,
+                (_, "ba") if i > 0 => o.force_ba = true,
                 _ => return None,
             }
         }
         Some(o)
     }
     fn show(&self) -> String {
-        format!("{}{}{}", if self.on { "on" } else { "off" }, if self.include { ",inc" } else { "" }, if self.validate_layout { ",vl" } else { "" })
+        format!(
+            "{}{}{}{}",
+            if self.on { "on" } else { "off" },
+            if self.include { ",inc" } else { "" },
+            if self.validate_layout { ",vl" } else { "" },
+            if self.force_ba { ",ba" } else { "" }
+        )
     }
 }
 
@@ -444,7 +454,7 @@ fn compile_wide(prog: &WProgram, o: WOpts, tgt: Tgt, mode: &Mode) -> (CompileOut
         let mut inc = MemFiles(r.files.clone());
         let mut args = rssl::CompileArgs::new("main.rssl", &mut inc, tgt.target())
             .defines(&defs)
-            .support_buffer_address(tgt.buffer_address())
+            .support_buffer_address(tgt.buffer_address() || o.force_ba)
             .validate_layout_consistency(o.validate_layout);
         match mode {
             Mode::All => {}
@@ -478,6 +488,7 @@ fn compile_wide(prog: &WProgram, o: WOpts, tgt: Tgt, mode: &Mode) -> (CompileOut
 
 fn is_front_error(e: &str) -> bool {
     !(e == "Shader does not contain a single pipeline"
+        || e == "InvalidArgs"
         || e.starts_with("Shader does not contain the pipeline: ")
         || e.starts_with("error: metal generate:")
         || e.starts_with("error: metal format:")
@@ -501,6 +512,8 @@ fn show_wide(o: &CompileOutcome, states: &[String]) -> String {
                 "err:none".into()
             } else if let Some(n) = e.strip_prefix("Shader does not contain the pipeline: ") {
                 format!("err:unknown:{}", n)
+            } else if e == "InvalidArgs" {
+                "err:args".into()
             } else if is_front_error(e) {
                 "err:front".into()
             } else {
@@ -549,6 +562,15 @@ fn run_wide(tgt: Tgt, mode: &Mode, o: WOpts, prog_s: &str, out: &mut Out, hist: 
     let mut fails: Vec<String> = Vec::new();
     if let CompileOutcome::Panic(p) = &result {
         fails.push(format!("panic {}", p));
+    }
+    // an argument error comes before anything else, whatever the file and the selection are
+    if o.force_ba && !matches!(tgt, Tgt::Vk | Tgt::VkBa) {
+        if result != CompileOutcome::Err("InvalidArgs".into()) {
+            fails.push(format!("buffer addresses requested for {}: {}", tgt.name(), describe(&result)));
+        }
+        let oracle = if fails.is_empty() { "ok".to_string() } else { format!("FAIL:{}", fails[0]) };
+        out.case(&req, &obs, &oracle);
+        return;
     }
     // a front-end rejection does not depend on the selection
     let front_err = match &result {
@@ -646,7 +668,7 @@ fn run_wide_line(f: &[&str], out: &mut Out, hist: &mut Hist) {
 }
 
 fn generate_wide(args: &Args, out: &mut Out, hist: &mut Hist) {
-    let n = args.n.unwrap_or(if args.thorough() { 4000 } else { 260 });
+    let n = args.n.unwrap_or(if args.thorough() { 6000 } else { 600 });
     let mut rng = Rng::new(args.seed ^ 0x17_17);
     for i in 0..n {
         let mut prng = rng.fork();
@@ -657,7 +679,7 @@ fn generate_wide(args: &Args, out: &mut Out, hist: &mut Hist) {
         if rng.chance(1, 4) {
             run_typer(!on, &s, out, hist);
         }
-        let o = WOpts { on, include: rng.chance(1, 5), validate_layout: rng.chance(1, 6) };
+        let o = WOpts { on, include: rng.chance(1, 5), validate_layout: rng.chance(1, 6), force_ba: rng.chance(1, 25) };
         let names: Vec<String> = prog.active(on).pipes().iter().map(|p| p.name.clone()).collect();
         // one or two targets per program, every mode
         let t0 = ALL_TARGETS[(i % 4) as usize];
